@@ -70,6 +70,7 @@ def cases(draw, names=None):
     name = draw(st.sampled_from(names or ALL_NAMES))
     b = Builder(draw, max_elems=30, allow_int=True)
     b.allow_const_flag = False
+    b.ufunc_options = True
     b.allow_empty = draw(st.integers(0, 7)) == 0
     b.recency_bias = False
     base = draw_shape(draw, max_ndim=3, max_side=4, cap=24, min_side=0 if b.allow_empty else 1)
